@@ -370,7 +370,9 @@ func runCase0(e *hx.Env, m *hx.Model, k kase) {
 			}
 			return sh
 		})
+		panicMsg := ""
 		if len(implShape) >= 5 && implShape[:5] == "panic" {
+			panicMsg = trunc(implShape)
 			implShape = "err panic"
 			e.Rep.Hit("impl-panic")
 		}
@@ -389,7 +391,7 @@ func runCase0(e *hx.Env, m *hx.Model, k kase) {
 		if !k.Real {
 			mod := m.Ask(line)
 			if mod != implShape {
-				e.Rep.Disagree(map[string]any{"case": k, "step": si}, trunc(implShape), trunc(mod), "node structure after step")
+				e.Rep.Disagree(map[string]any{"case": k, "step": si}, trunc(implShape), trunc(mod), "node structure after step "+panicMsg)
 				// keep going: the hash oracle below decides whether the implementation is at fault
 				if mod[:2] != "ok" || implShape[:2] != "ok" {
 					return
